@@ -850,6 +850,9 @@ def await_in_lambda_default_explains(expected: ast.expr, text: str, rec, domain:
     from _griffe.expressions import get_expression
 
     c3 = _c3()
+    # nodes substituted for string annotations carry no positions, and Griffe's log line for the default it cannot build
+    # reads `node.lineno`: without positions the builder call below would raise inside this classifier, not in Griffe's visitor
+    expected = ast.fix_missing_locations(c3.clone(expected))
     trial = c3.clone(expected)
     hit = False
     for n in ast.walk(trial):
